@@ -16,7 +16,9 @@ RULE = ('(1) encoder round trip: code points (sampled in quick, the whole '
         '\'..\' and "..", and verbatim in `..`; (3) integer literals up to '
         '4000 digits (beyond the interpreter limit of 4300 digits up to '
         '8191: refused as a lexical error or exact), decimals up to 400+400 '
-        'digits; (4) identifier-shaped '
+        'digits; numerically equal numerals of different kinds in one '
+        'expression and in two statements the host both keeps; every string '
+        'round trip also under an engine with a memory quota; (4) identifier-shaped '
         'words incl. reserved words, operator words and leading '
         'underscores; (5) the same word parsed in one process by engines '
         'whose tables have more / fewer identifier-like operators, in '
@@ -49,10 +51,15 @@ def quote(s, style):
     return q + s.replace('\\', '\\\\').replace(q, '\\' + q) + q
 
 
-def evaluate(text):
+def _quota_engine():
+    return common.engine({'yaql.memoryQuota': 10 ** 7,
+                          'yaql.limitIterators': 10 ** 5})
+
+
+def evaluate(text, eng=None):
     """('ok', value, constant value in tree) | ('exc', e)"""
     try:
-        stmt = _engine()(text)
+        stmt = (eng or _engine())(text)
         node = stmt.expression
         while isinstance(node, expressions.Wrap):
             node = node.expr
@@ -101,6 +108,18 @@ def check_roundtrip(run, case):
         run.violate('constant-in-tree-differs', case,
                     '%r spelled %s: Constant.value %r' % (s, text, out[2]),
                     input_class=ic)
+    else:
+        # the same literal under an engine with a memory quota (values are
+        # measured there): a literal's value does not depend on the options
+        out2 = evaluate(text, _quota_engine())
+        if out2[0] != 'ok' or out2[1] != s:
+            run.violate('reads-back-differently', case,
+                        '%r spelled %s under an engine with '
+                        'yaql.memoryQuota set: %s' % (
+                            s, text, ('raised %s' % type(out2[1]).__name__)
+                            if out2[0] != 'ok' else repr(out2[1])),
+                        exc=out2[1] if out2[0] != 'ok' else None,
+                        input_class=ic + '/quota-engine')
 
 
 # --------------------------------------------------------------------------
@@ -179,6 +198,48 @@ def _tokenizable(body, q):
         else:
             i += 1
     return True
+
+
+def check_pair(run, case):
+    """two numerals of one expression (or of two statements the host both
+    keeps) that are numerically equal but different literals: each denotes
+    its own value and type"""
+    a, b = case['a'], case['b']
+    want = []
+    for t in (a, b):
+        want.append(float(t) if '.' in t else int(t))
+    run.case(case, True, cls=['number-pair'])
+    if case.get('how') == 'two-statements':
+        eng = common.engine(cache=False) if case.get('fresh') else _engine()
+        s1 = eng(a)
+        s2 = eng(b)              # s1 is still referenced here
+        got = [s1.evaluate(context=common.child()),
+               s2.evaluate(context=common.child())]
+        text = '%s ; %s' % (a, b)
+    else:
+        text = '[%s, %s, str(%s) + str(%s)]' % (a, b, a, b)
+        out = evaluate(text)
+        if out[0] != 'ok':
+            run.violate('number-rejected', case, '%s raised %s' % (
+                text, type(out[1]).__name__), exc=out[1],
+                input_class='number-pair')
+            return
+        got = list(out[1])[:2]
+        tail = list(out[1])[2]
+        exp_tail = ''.join(('%r' % v) if isinstance(v, float) else str(v)
+                           for v in want)
+        if tail.replace('.0', '') != exp_tail.replace('.0', '') or \
+                ('.' in tail) != ('.' in exp_tail):
+            run.violate('number-denotes-other-value', case,
+                        '%s -> %r' % (text, out[1]),
+                        input_class='number-pair')
+            return
+    for g, w in zip(got, want):
+        if type(g) is not type(w) or g != w:
+            run.violate('number-denotes-other-value', case,
+                        '%s -> %r, expected %r' % (text, got, want),
+                        input_class='number-pair')
+            return
 
 
 def check_decode(run, case):
@@ -345,7 +406,7 @@ def check_word_engines(run, case):
                                      else []))
 
 
-REPLAY = {'roundtrip': check_roundtrip, 'decode': check_decode,
+REPLAY = {'number-pair': check_pair, 'roundtrip': check_roundtrip, 'decode': check_decode,
           'number': check_number, 'word': check_word,
           'word-engines': check_word_engines}
 
@@ -444,6 +505,19 @@ def _hyp_shard(run, which, n, shard):
         run.hyp('numbers', numbers.map(lambda t: {'kind': 'number',
                                                   'text': t}),
                 lambda c: check_number(run, c), n, shard=shard)
+    elif which == 'pairs':
+        twins = st.sampled_from([
+            ('1', '1.0'), ('0', '0.00'), ('3', '3.0'), ('7.0', '7'),
+            ('10000000000000000000000', '10000000000000000000000.0'),
+            ('5', '5.0'), ('2', '2.000'), ('100', '100.0'), ('1.0', '1'),
+            ('42', '42.0'), ('0.0', '0')])
+        cases = st.builds(
+            lambda t, how, fresh: {'kind': 'number-pair', 'a': t[0],
+                                   'b': t[1], 'how': how, 'fresh': fresh},
+            twins, st.sampled_from(['one-expression', 'two-statements']),
+            st.just(False))
+        run.hyp('number-pairs', cases, lambda c: check_pair(run, c), n,
+                shard=shard)
     elif which == 'word':
         run.hyp('words', words.map(lambda w: {'kind': 'word',
                                               'w': common.enc(w)}),
@@ -493,7 +567,8 @@ def run(run):
     for which, nq, nf in (('roundtrip', 6000, 100000),
                           ('decode', 3000, 50000), ('number', 800, 10000),
                           ('word', 800, 10000),
-                          ('word-engines', 400, 6000)):
+                          ('word-engines', 400, 6000),
+                          ('pairs', 80, 400)):
         for i in range(k):
             jobs.append((which, (nf if full else nq) // k, i))
     run.shards(_hyp_shard, jobs)
